@@ -1,7 +1,7 @@
 CONSTANTS
   MaxN = 4
   MaxDeps = 1
-  Classes = {"ok", "Transport", "ErrorsNoData"}
+  Classes = {"ok", "Transport", "ErrorsNoData", "PartialData"}
   MaxFaults = 2
   Ents = {1}
 SPECIFICATION MCSpec
